@@ -20,9 +20,16 @@ def asm_run(sc_id, f, sched, seed, big):
     from tlslite.integration.asyncstatemachine import AsyncStateMachine
     from . import c14
     rnd = random.Random(repr((seed, "asm", sc_id, sched)))
-    sc = Scenario(f, "c14asm-%d" % sc_id)
+    # flavours marked rsl: the client advertises a small record size limit, the server the default (what an endpoint
+    # may SEND then differs from what it has to be ready to RECEIVE)
+    sc = Scenario(f, "c14asm-%d" % sc_id, cextra=dict(record_size_limit=f["rsl"]) if f.get("rsl") else None)
     p = sc.pair
     kind, arg = sched
+    # "select": a select()-style loop - the machine is called only when its socket is readable / it wants to write, and
+    # the network hands over one record at a time (nothing is ever left in a read-ahead buffer)
+    select_style = kind == "select"
+    if select_style:
+        kind, arg = "none", None
     p.csock.schedule = c14.make_sched(kind, arg, rnd)
     p.ssock.schedule = c14.make_sched(kind, arg, rnd)
     msg1 = bytes((i * 7 + 3) & 255 for i in range(700))
@@ -107,6 +114,8 @@ def asm_run(sc_id, f, sched, seed, big):
                 continue
             steps += 1
             readable = bool(m.sock.rx.buf) or m.sock.rx.eof
+            if select_style:
+                m.drain = False
             if m.wantsWriteEvent():
                 m.call("inWrite", m.inWriteEvent)
                 progressed = True
@@ -148,7 +157,20 @@ def asm_run(sc_id, f, sched, seed, big):
                         progressed = True
         moved = False
         for q in p.pipes:
-            if q.transfer():
+            if select_style:
+                # one record at a time, and only when the previous one has been taken
+                if not q.buf and len(q.inbox) >= 5:
+                    n = 5 + ((q.inbox[3] << 8) | q.inbox[4])
+                    if len(q.inbox) >= n:
+                        q.buf += q.inbox[:n]
+                        q.dlv_log += q.inbox[:n]
+                        del q.inbox[:n]
+                        moved = True
+                if not q.inbox and q.eof_pending and not q.buf:
+                    q.eof = True
+                    q.eof_pending = False
+                    moved = True
+            elif q.transfer():
                 moved = True
         if not progressed and not moved:
             break
@@ -199,6 +221,14 @@ def part(rep, tier):
             scheds += [("rand", i) for i in range(3, 20)] + [("sizes", [a, b]) for a in (1, 3, 6) for b in (1, 5, 4096)]
         for s in scheds:
             jobs.append((si, f, s, env.SEED))
+    # select()-style loops, also with asymmetric record size limits
+    for ver, kex in ((3, "ecdhe_rsa"), (4, "tls13")):
+        for rsl in (None, 64, 500):
+            f = F(ver, kex)
+            if rsl:
+                f["rsl"] = rsl
+            flavs.append(f)
+            jobs.append((len(flavs) - 1, f, ("select", None), env.SEED))
     with Pool(16) as pool:
         res = pool.map(case, jobs, chunksize=2)
     traces, owners = [], []
@@ -216,7 +246,7 @@ def part(rep, tier):
     seen = set()
     for i, (ep, info) in enumerate(owners):
         f = flavs[info["sc"]]
-        key = ("asm", FL.fname(f), json.dumps(info["sched"]))
+        key = ("asm", FL.fname(f) + ("+rsl%d" % f["rsl"] if f.get("rsl") else ""), json.dumps(info["sched"]))
         if key not in seen:
             seen.add(key)
             rep.case(key, info["ref_ok"])
